@@ -526,6 +526,35 @@ pub fn c17(a: &Args) {
             let want = single.enumerate(&mut vec![], amount);
             if got != want { out.fail("enumeration-on-clones", &f.text(), &format!("{what}; request {i}"), &format!("{:?}", got), &format!("{:?}", want)); break; }
         }
+        // the same with an assumption set of two literals whose order changes from request to request (one cursor per SET)
+        if f.n >= 2 {
+            let (v1, v2) = (1 + rng.below(f.n as usize) as i32, 1 + rng.below(f.n as usize) as i32);
+            let aset = vec![if rng.chance(0.5) { v1 } else { -v1 }, if rng.chance(0.5) { v2 } else { -v2 }];
+            let ca = tt.count_with(&aset) as usize;
+            if v1 != v2 && ca >= 2 {
+                let k = 1 + rng.below(ca.min(3));
+                let total_req = (2 * ca).div_ceil(k) + 1;
+                let mut seen: std::collections::HashSet<Vec<i32>> = Default::default();
+                let mut served = 0usize;
+                let what2 = format!("{total_req} x enumerate({:?} in alternating order, {k}) handed to {nclones} clones in turn ({ca} models)", aset);
+                out.eval(Some(format!("{}|{}", f.text(), what2)));
+                for i in 0..total_req {
+                    let mut al = aset.clone();
+                    if i % 2 == 1 { al.reverse(); }
+                    let c = &mut clones[(i + 1) % nclones];
+                    match guarded(|| c.enumerate(&mut al, k)) {
+                        Ok(Some(page)) => {
+                            let want = k.min(ca - served);
+                            let bad = page.len() != want || page.iter().any(|cfg| !seen.insert(cfg.clone()));
+                            if bad { out.fail("enumeration-on-clones", &f.text(), &format!("{what2}; request {i}"), &format!("{:?}", page), &format!("{want} models not yet returned in this cycle")); break; }
+                            served += page.len();
+                            if served == ca { served = 0; seen.clear(); }
+                        }
+                        other => { out.fail("enumeration-on-clones", &f.text(), &format!("{what2}; request {i}"), &format!("{:?}", other), "a page"); break; }
+                    }
+                }
+            }
+        }
         // concurrent: amount divides count => `cycles` whole cycles in total, each model handed out `cycles` times
         if count % amount == 0 {
             let cycles = 2 + rng.below(2);
